@@ -204,13 +204,13 @@ def run(ctx):
     backend = (None, 'debug', 'pmap')[vi % 3]
     if name in ('mime_lite', 'mime') and vi % 2 == 0:
       backend = 'pmap'      # these keep per-client bookkeeping next to the for_each_client loop
-    rec = algs.run_rounds(fedjax, name, c, order='listed' if rng.random() < .5 else 'reversed', backend=backend, **kw)
+    rec = algs.run_rounds(fedjax, name, c, order='listed' if rng.random() < .5 else 'reversed', backend=backend, typed_keys=(vi % 4 == 1), **kw)
 
     inst = c['inst']
     busy = sum(1 for d in inst['data'] if d) >= 2 and (inst['rounds'] >= 2 or max(len(s) for s in inst['stream']) >= 2)
     label = f'{name}({", ".join(f"{k}={v}" for k, v in kw.items())})'
     ctx.case(key=(label, repr(oinst)), nontrivial=busy)
-    cfg = {'algorithm': label, 'instance': oinst, 'hparams': c['h'], 'backend': backend or 'jit'}
+    cfg = {'algorithm': label, 'instance': oinst, 'hparams': c['h'], 'backend': backend or 'jit', 'typed_client_keys': vi % 4 == 1}
     if rec['error']:
       ctx.violation(f'replay:{name}:exception:{rec["error"].split(":")[0]}', f'{label}: {rec["error"]} on instance {oinst}', replay=dict(cfg, tb=rec.get('tb')))
       continue
